@@ -35,6 +35,7 @@ import (
 	"os"
 	"os/exec"
 	"path/filepath"
+	"runtime"
 	"sort"
 	"strconv"
 	"strings"
@@ -712,6 +713,86 @@ func vC18CaseExists(t *testing.T, r *rand.Rand, out *vC18Out) {
 		map[string]any{"m": m, "wild": wild, "w": w, "exists": obs}, blocked > 0 && blocked < len(probes), goFail, "")
 }
 
+// a fixed sweep, the same on every run: every letter of the alphabet, alone capitalised,
+// at the first, a middle and the last label position, against plain, wildcard and
+// whitelist entries; and the four bytes next to the letter ranges, which no folding may
+// touch. One CaseExists per list, one CaseServe for the ends of the alphabet.
+func vC18CaseAlphabet(t *testing.T, r *rand.Rand, out *vC18Out) {
+	const alpha = "abcdefghijklmnopqrstuvwxyz"
+	one := func(i int) string { return alpha[:i] + strings.ToUpper(alpha[i:i+1]) + alpha[i+1:] }
+	type list struct {
+		block, white []string
+		probe        func(i int) []string
+		extra        []string
+	}
+	lists := []list{
+		// plain entry, the alphabet is the first label
+		{[]string{alpha + ".mid.test."}, nil, func(i int) []string { return []string{one(i) + ".mid.test."} },
+			[]string{"x" + alpha + ".mid.test.", strings.ToUpper(alpha) + ".MID.TEST.", alpha[1:] + ".mid.test."}},
+		// wildcard entry, the alphabet is a middle label: children blocked, the apex not
+		{[]string{"*." + alpha + ".test."}, nil, func(i int) []string {
+			if i%3 == 0 {
+				return []string{one(i) + ".test."}
+			}
+			return []string{"www." + one(i) + ".test."}
+		}, []string{"www." + strings.ToUpper(alpha) + ".test", "www." + alpha + "x.test."}},
+		// whitelist below a plain entry, the alphabet is the last label
+		{[]string{"ads." + alpha + "."}, []string{"ok.ads." + alpha + "."}, func(i int) []string {
+			if i%2 == 0 {
+				return []string{"ok.ads." + one(i) + "."}
+			}
+			return []string{"x.ads." + one(i) + "."}
+		}, []string{"deep.OK.ads." + strings.ToUpper(alpha) + ".", "nok.ads." + alpha + "."}},
+		// the neighbours of the letter ranges are different names
+		{[]string{"a[b.test.", "q{r.test.", "x`y.test.", "*.m@n.test."}, []string{"safe.a[b.test."},
+			func(i int) []string { return nil },
+			[]string{"a{b.test.", "A[B.test.", "q[r.test.", "Q{R.TEST.", "x@y.test.", "X`Y.test.", "w.m`n.test.", "w.M@N.test.",
+				"safe.a{b.test.", "SAFE.A[B.test."}},
+	}
+	for _, l := range lists {
+		cfg := vC18Cfg(r, vC18Dir(t))
+		cfg.Blocklist, cfg.Whitelist = l.block, l.white
+		b := New(cfg)
+		m, wild, w := vC18Dump(b)
+		var probes []string
+		for i := range alpha {
+			probes = append(probes, l.probe(i)...)
+		}
+		probes = append(probes, l.extra...)
+		var parts []string
+		var obs []any
+		goFail := ""
+		for _, q := range probes {
+			got := b.Exists(q)
+			parts = append(parts, fmt.Sprintf("(%s, %v)", vC18Str(q), got))
+			obs = append(obs, []any{q, got})
+			if want, ok := vC18Ref(m, wild, w, q); ok && want != got {
+				goFail = fmt.Sprintf("Exists(%q) = %v, whole-label reference matcher says %v", q, got, want)
+			}
+		}
+		out.emit("exists-alphabet", fmt.Sprintf("CaseExists %s %s %s [%s]", vC18List(m), vC18List(wild), vC18List(w), strings.Join(parts, "; ")),
+			map[string]any{"m": m, "wild": wild, "w": w, "exists": obs}, true, goFail, "")
+		// and through ServeDNS for the ends of the alphabet
+		nr := vC18IPNum(net.ParseIP(cfg.Nullroute), true)
+		nr6 := vC18IPNum(net.ParseIP(cfg.Nullroutev6), false)
+		for _, i := range []int{0, 25} {
+			for _, q := range l.probe(i) {
+				o, desc, seen := vC18Serve(b, dns.Fqdn(q), dns.TypeA, i == 0)
+				if o == "" {
+					continue
+				}
+				desc["m"], desc["wild"], desc["w"] = m, wild, w
+				gf := ""
+				if want, ok := vC18Ref(m, wild, w, seen); ok && want != strings.HasPrefix(o, "OReply") {
+					gf = fmt.Sprintf("query %q: reference matcher says blocked=%v, handler outcome %s", seen, want, o)
+				}
+				out.emit("serve-alphabet", fmt.Sprintf("CaseServe %s %s %s %s%%N %s%%N %s %d%%N (%s)", vC18List(m), vC18List(wild), vC18List(w), nr, nr6, vC18Str(seen), dns.TypeA, o),
+					desc, true, gf, "")
+			}
+		}
+	}
+}
+
 var vC18Qtypes = []uint16{dns.TypeA, dns.TypeA, dns.TypeA, dns.TypeAAAA, dns.TypeAAAA, dns.TypeNS, dns.TypeMX, dns.TypeTXT,
 	dns.TypeSOA, dns.TypeANY, dns.TypeCNAME, dns.TypePTR, dns.TypeHTTPS, dns.TypeSRV, dns.TypeDS}
 
@@ -1206,7 +1287,16 @@ func vC18CaseGated(t *testing.T, r *rand.Rand, out *vC18Out) {
 	// a call that is certain to change nothing
 	noop := func() vC18Op {
 		absent := "absent-" + vC18Name(r)
-		switch r.Intn(4) {
+		switch r.Intn(7) {
+		case 4: // a key setLocked refuses (it could not survive the hosts-format file)
+			return vC18Op{"set", []string{[]string{"a#b.", "a b.", "#", "x\ty."}[r.Intn(4)] + absent}}
+		case 5:
+			return vC18Op{"setbatch", []string{"one two." + absent, "*.c#d." + absent}}
+		case 6: // empty batches
+			if r.Intn(2) == 0 {
+				return vC18Op{"setbatch", []string{}}
+			}
+			return vC18Op{"removebatch", []string{}}
 		case 0:
 			return vC18Op{"remove", []string{absent}}
 		case 1:
@@ -1244,16 +1334,46 @@ func vC18CaseGated(t *testing.T, r *rand.Rand, out *vC18Out) {
 			ret := op.apply(ref) // the reference list tells what the call does
 			bm1, bw1, _ := vC18Dump(ref)
 			changed := fmt.Sprintf("%q %q", bm0, bw0) != fmt.Sprintf("%q %q", bm1, bw1)
-			if ret > 0 && !changed && i < 50 {
-				// succeeds without changing memory (Set of a present key): its progress cannot be
-				// observed from outside; undo nothing (ref unchanged) and pick another call
-				// -- the sequential histories cover it
-				ncalls++
-				continue
+			version := func() uint64 {
+				b.mu.RLock()
+				defer b.mu.RUnlock()
+				return b.version
 			}
+			v0 := version()
 			done := make(chan int, 1)
 			go func(op vC18Op) { done <- op.apply(b) }(op)
 			got := -1
+			if ret > 0 && !changed {
+				// a duplicate: succeeds without changing memory (Set of a present key, a batch of
+				// present keys). The code takes a snapshot for it all the same; the version counter
+				// tells when it has (the call is then queued at the gate) — unless the call simply
+				// returns, which is as good.
+				returned := false
+				for spins := 0; version() == v0 && !returned; spins++ {
+					select {
+					case got = <-done:
+						returned = true
+					default:
+						time.Sleep(50 * time.Microsecond)
+					}
+					if spins > 400000 {
+						b.saveMu.Unlock()
+						t.Fatalf("duplicate call %v neither returned nor took a snapshot", op)
+					}
+				}
+				if returned {
+					if got != ret {
+						goFail = fmt.Sprintf("%v returned %d on the list under the gate, %d on the reference list", op, got, ret)
+					}
+				} else {
+					waiting = append(waiting, done)
+					rets = append(rets, ret)
+				}
+				anyOK = true
+				parts = append(parts, fmt.Sprintf("(%s, %d%%N)", op.coq(), ret))
+				desc = append(desc, []any{op.Kind, op.Keys, "returns", ret, "duplicate, queued_at_gate", !returned})
+				continue
+			}
 			if ret == 0 {
 				// nothing to save: must return although the gate is closed
 				select {
@@ -1471,6 +1591,7 @@ type vC18CrashSpec struct {
 	Op    vC18Op   `json:"op"`
 	Limit int      `json:"limit"` // bytes; negative: that many bytes before the end of the new file
 	Kill  bool     `json:"kill"`
+	Fault string   `json:"fault,omitempty"` // create | sync | close | rename: that step of persist() returns an error (Limit, Kill unused)
 }
 
 type vC18Script struct {
@@ -1689,6 +1810,10 @@ func vC18RunScripts(t *testing.T, out *vC18Out, scripts []*vC18Script, kprefix s
 	}
 	wg.Wait()
 	for i, sc := range scripts {
+		if sc.Crash != nil && sc.Crash.Fault != "" {
+			vC18RunFault(t, out, kprefix, sc.Whitelist, sc.Crash.Old, sc.Crash.Op, sc.Crash.Fault, sc.Name)
+			continue
+		}
 		if sc.Crash != nil {
 			vC18RunCrash(t, out, kprefix, sc.Whitelist, sc.Crash.Old, sc.Crash.Op, sc.Crash.Limit, sc.Crash.Kill, sc.Name)
 			continue
@@ -1774,6 +1899,109 @@ type vC18ChildSpec struct {
 	Op        vC18Op   `json:"op"`
 	Limit     uint64   `json:"limit"`
 	Kill      bool     `json:"kill"` // restore SIGXFSZ's default action (process dies) or leave it ignored (write fails with EFBIG)
+	Fault     string   `json:"fault"` // "" or create | sync | close | rename: a system call filter makes that step fail with EIO
+}
+
+// ---- fault injection without a source hook: a seccomp filter installed in the child
+// process (all threads) makes the system call behind one step of persist() return EIO.
+// create: openat with O_EXCL (os.CreateTemp); sync: fsync/fdatasync; close: close;
+// rename: rename/renameat/renameat2. Everything else runs normally.
+
+type vC18SockFilter struct {
+	code uint16
+	jt   uint8
+	jf   uint8
+	k    uint32
+}
+
+type vC18SockFprog struct {
+	n      uint16
+	_      [6]byte
+	filter *vC18SockFilter
+}
+
+var vC18FaultSteps = []string{"create", "sync", "close", "rename"}
+
+func vC18FaultIndex(fault string) int {
+	for i, f := range vC18FaultSteps {
+		if f == fault {
+			return i
+		}
+	}
+	return -1
+}
+
+func vC18InstallFault(fault string) error {
+	if runtime.GOARCH != "amd64" || runtime.GOOS != "linux" {
+		return fmt.Errorf("fault injection needs linux/amd64")
+	}
+	const (
+		ldAbs = 0x20
+		jeq   = 0x15
+		jset  = 0x45
+		ret   = 0x06
+		allow = 0x7fff0000
+		eio   = 0x00050000 | 5
+		oExcl = 0x80
+	)
+	var nrs []uint32
+	switch fault {
+	case "sync":
+		nrs = []uint32{74, 75}
+	case "close":
+		nrs = []uint32{3}
+	case "rename":
+		nrs = []uint32{82, 264, 316}
+	case "create":
+	default:
+		return fmt.Errorf("unknown fault %q", fault)
+	}
+	var f []vC18SockFilter
+	f = append(f, vC18SockFilter{ldAbs, 0, 0, 4}) // seccomp_data.arch
+	f = append(f, vC18SockFilter{jeq, 1, 0, 0xc000003e})
+	f = append(f, vC18SockFilter{ret, 0, 0, allow})
+	f = append(f, vC18SockFilter{ldAbs, 0, 0, 0}) // seccomp_data.nr
+	if fault == "create" {
+		f = append(f,
+			vC18SockFilter{jeq, 1, 0, 257}, // openat
+			vC18SockFilter{ret, 0, 0, allow},
+			vC18SockFilter{ldAbs, 0, 0, 32}, // args[2], low word: flags
+			vC18SockFilter{jset, 1, 0, oExcl},
+			vC18SockFilter{ret, 0, 0, allow},
+			vC18SockFilter{ret, 0, 0, eio})
+	} else {
+		for i, nr := range nrs {
+			f = append(f, vC18SockFilter{jeq, uint8(len(nrs) - i), 0, nr}) // -> the eio return
+		}
+		f = append(f, vC18SockFilter{ret, 0, 0, allow}, vC18SockFilter{ret, 0, 0, eio})
+	}
+	prog := vC18SockFprog{n: uint16(len(f)), filter: &f[0]}
+	runtime.LockOSThread()
+	defer runtime.UnlockOSThread()
+	if _, _, e := syscall.RawSyscall6(syscall.SYS_PRCTL, 38 /* PR_SET_NO_NEW_PRIVS */, 1, 0, 0, 0, 0); e != 0 {
+		return fmt.Errorf("prctl: %v", e)
+	}
+	if _, _, e := syscall.RawSyscall(317 /* seccomp */, 1 /* SET_MODE_FILTER */, 1 /* TSYNC */, uintptr(unsafe.Pointer(&prog))); e != 0 {
+		return fmt.Errorf("seccomp: %v", e)
+	}
+	runtime.KeepAlive(f)
+	return nil
+}
+
+// does the filter bite? (a kernel without seccomp would silently run the plain scenario)
+func vC18FaultActive(fault string) bool {
+	var err error
+	switch fault {
+	case "sync":
+		err = syscall.Fsync(-1)
+	case "close":
+		err = syscall.Close(-1)
+	case "rename":
+		err = syscall.Rename("", "")
+	case "create":
+		_, err = syscall.Open("", syscall.O_RDWR|syscall.O_CREAT|syscall.O_EXCL, 0o600)
+	}
+	return err == syscall.EIO
 }
 
 // TestVerifC18Child runs in a child process: production New over the directory,
@@ -1807,6 +2035,13 @@ func TestVerifC18Child(t *testing.T) {
 		}
 	}
 	_ = syscall.Setrlimit(syscall.RLIMIT_CORE, &syscall.Rlimit{})
+	if spec.Fault != "" {
+		if err := vC18InstallFault(spec.Fault); err != nil || !vC18FaultActive(spec.Fault) {
+			os.Exit(3)
+		}
+		spec.Op.apply(b)
+		os.Exit(0)
+	}
 	if err := syscall.Setrlimit(syscall.RLIMIT_FSIZE, &syscall.Rlimit{Cur: spec.Limit, Max: spec.Limit}); err != nil {
 		os.Exit(3)
 	}
@@ -1909,6 +2144,90 @@ func vC18RunCrashWith(t *testing.T, out *vC18Out, kprefix string, whitelist, old
 	return true
 }
 
+// one fault scenario: the previous list (written by the real code from oldKeys), then in
+// a child process production New over the directory and ONE API call during which the
+// named step of persist() returns an error; afterwards the directory and a reload of it.
+// Returns false when the call changes nothing.
+func vC18RunFault(t *testing.T, out *vC18Out, kprefix string, whitelist, oldKeys []string, op vC18Op, fault string, name string) bool {
+	which := vC18FaultIndex(fault)
+	if which < 0 {
+		t.Fatalf("unknown fault %q", fault)
+	}
+	dir := vC18Dir(t)
+	cfg := &config.Config{Nullroute: "0.0.0.0", Nullroutev6: "::0", BlockListDir: dir, Whitelist: whitelist}
+	b := vC18NewQuiet(cfg)
+	if b.SetBatch(oldKeys) == 0 {
+		return false
+	}
+	_, old := vC18ReadLocal(dir)
+	refDir := vC18Dir(t)
+	if err := os.WriteFile(filepath.Join(refDir, "local"), []byte(old), 0o644); err != nil {
+		t.Fatal(err)
+	}
+	ref := vC18NewQuiet(&config.Config{BlockListDir: refDir, Whitelist: whitelist})
+	oldM, oldWild, _ := vC18Dump(ref)
+	if op.apply(ref) == 0 {
+		return false
+	}
+	newM, newWild, _ := vC18Dump(ref)
+	spec := vC18ChildSpec{Dir: dir, Whitelist: whitelist, Op: op, Fault: fault}
+	raw, _ := json.Marshal(spec)
+	cmd := exec.Command(os.Args[0], "-test.run", "^TestVerifC18Child$", "-test.count=1")
+	cmd.Env = append(os.Environ(), "VERIF_C18_CHILD="+string(raw))
+	if err := cmd.Run(); err != nil {
+		// the filter could not be installed (exit 3) or the child died otherwise: infrastructure
+		b, _ := json.Marshal(map[string]any{"k": "fault-setup", "inconclusive": true, "desc": fmt.Sprint(err)})
+		out.f.Write(append(b, '\n'))
+		return true
+	}
+	present, local := vC18ReadLocal(dir)
+	names, _ := filepath.Glob(filepath.Join(dir, "local.tmp.*"))
+	sort.Strings(names)
+	temps := []string{}
+	for _, n := range names {
+		data, _ := os.ReadFile(n)
+		temps = append(temps, string(data))
+	}
+	all, _ := os.ReadDir(dir)
+	goFail := ""
+	if len(all) != 1+len(names) || !present {
+		var ls []string
+		for _, e := range all {
+			ls = append(ls, e.Name())
+		}
+		goFail = fmt.Sprintf("directory after the failed save holds %q, expected `local` (and at most temp files)", ls)
+	}
+	nb := New(&config.Config{Nullroute: "0.0.0.0", Nullroutev6: "::0", BlockListDir: dir, Whitelist: whitelist})
+	rm, rwild, _ := vC18Dump(nb)
+	out.emit(kprefix+"fault-"+fault, fmt.Sprintf("CaseFault %s %s (%s) %d %s %s %s %s %s %s %s %s", vC18List(whitelist), vC18Str(old), op.coq(), which,
+		vC18OptStr(present, local), vC18List(temps), vC18List(rm), vC18List(rwild),
+		vC18List(oldM), vC18List(oldWild), vC18List(newM), vC18List(newWild)),
+		map[string]any{"script": name, "whitelist": whitelist, "old_file": old, "op": []any{op.Kind, op.Keys}, "failing_step": fault,
+			"local_after": local, "local_present": present, "temp_files_after": temps, "reloaded_m": rm, "reloaded_wild": rwild,
+			"previous_m": oldM, "previous_wild": oldWild, "new_m": newM, "new_wild": newWild}, true, goFail, "")
+	return true
+}
+
+func vC18CaseFault(t *testing.T, r *rand.Rand, out *vC18Out) {
+	pool := vC18KeyPool(r, "", false)
+	whitelist := vC18Whitelist(r, pool)
+	nold := 1 + r.Intn(4)
+	var oldKeys []string
+	for i := 0; i < nold; i++ {
+		oldKeys = append(oldKeys, pool[r.Intn(len(pool))])
+	}
+	fault := vC18FaultSteps[r.Intn(len(vC18FaultSteps))]
+	for try := 0; try < 20; try++ {
+		op := vC18RandOp(r, pool)
+		if len(op.Keys) == 0 {
+			continue
+		}
+		if vC18RunFault(t, out, "", whitelist, oldKeys, op, fault, "") {
+			return
+		}
+	}
+}
+
 func vC18CaseCrash(t *testing.T, r *rand.Rand, out *vC18Out, kill bool) {
 	pool := vC18KeyPool(r, "", false)
 	whitelist := vC18Whitelist(r, pool)
@@ -1960,6 +2279,8 @@ func TestVerifC18(t *testing.T) {
 	r := rand.New(rand.NewSource(seed*1000003 + 18))
 	// the corpus first
 	vC18RunScripts(t, out, vC18LoadCorpus(t), "corpus-")
+	// the fixed alphabet sweep (its own generator: the random stream below does not depend on it)
+	vC18CaseAlphabet(t, rand.New(rand.NewSource(18)), out)
 	// random histories with refreshes that bring remote lists (side by side, about two seconds)
 	nrh := 8
 	if os.Getenv("VERIF_TIER") == "thorough" {
@@ -2003,10 +2324,12 @@ func TestVerifC18(t *testing.T) {
 			vC18CaseGated(t, r, out)
 		case x < 90:
 			vC18CaseParse(t, r, out)
-		case x < 96:
+		case x < 95:
 			vC18CaseCrash(t, r, out, true)
-		default:
+		case x < 98:
 			vC18CaseCrash(t, r, out, false)
+		default:
+			vC18CaseFault(t, r, out)
 		}
 	}
 }
